@@ -11,8 +11,9 @@ import ASV.Proofs.Parser.RulePP
 import ASV.Proofs.Parser.Alias
 import ASV.Proofs.Parser.SubstRule
 import ASV.Proofs.Parser.FuelTop
+import ASV.Proofs.Parser.Reprint9
 namespace ASV.C02
-open ASV ASV.Rules ASV.Parser ASV.Grammar ASV.Layout
+open ASV ASV.Rules ASV.Parser ASV.Grammar ASV.Layout ASV.Reprint
 
 /-! ### the regenerated tables still say what the model assumes -/
 
@@ -225,6 +226,32 @@ example (t : Tok) (rest : List Tok) (A : Aliases) (rules : List Rule) :
       { cur := some t, rest := subst A rest, aliases := [], rules := rules } := rfl
 
 example : Flat [] := ⟨by simp, by simp, by simp⟩
+
+/-! ### the regenerated text parses back (thm 7) -/
+
+/-- thm 7 (`reparse_printed`) for every list `L` of `or`-operands the parser can return (a CONDITIONS
+    section, the inside of a group or of `cds(...)`: documented shape `shapeOks`, no repeated operand,
+    profile names that are identifiers — exactly what `conditions_accepts_only_grammar` guarantees
+    for parser output): the text `__str__` prints for it (after the D17/D26 print repairs)
+    is tokenised without error, and the tokens are parsed — in any alias-free state, followed by
+    anything a section may be followed by — into `normL L`: the same operands up to the transparent
+    single-operand group the printer drops (`normC`), `minimum` options sorted; `normL L` has the
+    same meaning at every gene of every environment (C01 `sem`), prints to the same text, and is
+    again legal. -/
+theorem reparse_printed (L : List Cond) (allowCds : Bool) (hne : L ≠ []) (hn : NamesOkL L)
+    (hs : shapeOks allowCds L = true) (hr : noRepeats L = true) :
+    ∃ toks, tokenise (String.ofList (printJoin orSep L)) = .ok toks ∧
+      (∀ (fuel : Nat) (isGroup : Bool) (k consumed : List Tok) (rules : List Rule), NotBinop k →
+        (∀ c r, endCheck isGroup (ofStream k c r) = .ok ()) → 3 * toks.length + 2 ≤ fuel →
+        parseConditions fuel allowCds isGroup (ofStream (toks ++ k) consumed rules) =
+          .ok (normL L, ofStream k (toks.reverse ++ consumed) rules)) ∧
+      (∀ e g, semAny e g (normL L) = semAny e g L) ∧
+      printConds (normL L) = printConds L ∧ shapeOks allowCds (normL L) = true ∧ noRepeats (normL L) = true :=
+  reparse_operands L allowCds hne hn hs hr
+
+/-- D17 and D26 on the model: `not (not a)` and `cds((a))` print with their parentheses -/
+example : printCond (.group true [.group true [.single false "a"]]) = "not (not a)" := by decide +kernel
+example : printCond (.cds false [.group false [.single false "a"]]) = "cds((a))" := by decide +kernel
 
 /-! ### the model's fuel is never exhausted (the `fuel` error value is unreachable) -/
 
